@@ -379,15 +379,22 @@ mod harnesses {
         std::mem::forget(r);
     }
 
-    /// Two concrete inputs whose dedent width (taken from the ASCII-indented last line) falls
-    /// inside a multi-byte whitespace character of the middle line: U+2003 EM SPACE (3 bytes) and
-    /// U+00A0 NO-BREAK SPACE (2 bytes).  `&line[min_indent..]` panicked on both before /repo
-    /// commit b5df239.  This is a regression test executed by CBMC, not a bounded proof.
+    /// Concrete input whose dedent width (1, taken from the ASCII-indented last line) falls inside
+    /// the 3-byte whitespace character U+2003 EM SPACE of the middle line.  `&line[min_indent..]`
+    /// panicked on it before /repo commit b5df239.  This is a regression test executed by CBMC,
+    /// not a bounded proof.
     #[kani::proof]
     #[kani::unwind(12)]
     #[kani::stub(core::slice::memchr::memchr, memchr_naive_stub)]
     fn format_docstring_regression() {
         check_format_docstring_concrete("a\n\u{2003}b\n c");
+    }
+
+    /// Same with the 2-byte whitespace character U+00A0 NO-BREAK SPACE.
+    #[kani::proof]
+    #[kani::unwind(12)]
+    #[kani::stub(core::slice::memchr::memchr, memchr_naive_stub)]
+    fn format_docstring_nbsp_witness_t() {
         check_format_docstring_concrete("a\n\u{a0}b\n c");
     }
 }
